@@ -736,7 +736,7 @@ class Body:
                     s = s[1:]
             elif isinstance(e, dict) and "f" in e:
                 if e["o"].startswith("closure:"):
-                    s = "up%d:%s" % (e["f"], e["ty"].split("::")[-1][:40])
+                    s = self._canon_upvar(e)
                 else:
                     s = "%s.%s" % (s, e["n"])
             elif isinstance(e, dict) and "idx" in e:
@@ -748,6 +748,23 @@ class Body:
             elif isinstance(e, dict) and "sub_from" in e:
                 s = "%s[%d..]" % (s, e["sub_from"])
         return s
+
+    def _canon_upvar(self, e):
+        """a captured variable is named by what the creating body captures — the canonical expression of the
+        operand in the closure aggregate — not by its position in the capture list (which changes when the
+        closure body mentions its captures in another order)"""
+        if getattr(self, "_capt", None) is None:
+            self._capt = {}
+            pb = self.facts.bodies.get(self.parent) if self.parent else None
+            if pb is not None:
+                for (_bb, _i, cdef, ops, _fields) in pb.closures_created():
+                    if cdef == self.id:
+                        for i, o in enumerate(ops):
+                            self._capt[i] = pb.canon(o, depth=4, env={}).replace("$", "^")
+        ty = e["ty"].split("::")[-1][:40]
+        if e["f"] in self._capt:
+            return "up{%s}" % self._capt[e["f"]]
+        return "up%d:%s" % (e["f"], ty)
 
     def _canon_rv(self, rv, depth, env):
         if "use" in rv:
@@ -980,6 +997,8 @@ class Facts:
         self.raw = raw
         self.config = config
         self.bodies = {}
+        from .inline import inline_helpers
+        self.inline_info = inline_helpers(raw, VERIF)
         for f in raw["fns"]:
             b = Body(self, f)
             self.bodies[b.id] = b
